@@ -165,6 +165,12 @@ func (b *Builder) BVar(name string, s Sort) *Term {
 	return b.mk("bvar", nil, s, nil, fmt.Sprintf("%s?%d", sanitize(name), n))
 }
 
+// BVarAt names a bound variable by its quantifier nesting depth, so that
+// alpha-equivalent contract formulas become the same hash-consed term.
+func (b *Builder) BVarAt(name string, depth int, s Sort) *Term {
+	return b.mk("bvar", nil, s, nil, fmt.Sprintf("%s?d%d", sanitize(name), depth))
+}
+
 func (b *Builder) Not(x *Term) *Term {
 	switch {
 	case x.IsTrue():
@@ -173,6 +179,10 @@ func (b *Builder) Not(x *Term) *Term {
 		return b.tt
 	case x.op == "not":
 		return x.args[0]
+	case x.op == "<" && x.args[0].sort == SInt:
+		return b.Le(x.args[1], x.args[0])
+	case x.op == "<=" && x.args[0].sort == SInt:
+		return b.Lt(x.args[1], x.args[0])
 	}
 	return b.mk("not", []*Term{x}, SBool, nil, "")
 }
@@ -202,6 +212,12 @@ func (b *Builder) And(xs ...*Term) *Term {
 	for _, x := range out {
 		if x.op == "not" && seen[x.args[0].id] {
 			return b.ff
+		}
+		if x.op == "<" {
+			// a < b together with b <= a
+			if c, ok := b.tab[fmt.Sprintf("<=|,%d,%d", x.args[1].id, x.args[0].id)]; ok && seen[c.id] {
+				return b.ff
+			}
 		}
 	}
 	switch len(out) {
@@ -238,6 +254,11 @@ func (b *Builder) Or(xs ...*Term) *Term {
 	for _, x := range out {
 		if x.op == "not" && seen[x.args[0].id] {
 			return b.tt
+		}
+		if x.op == "<" {
+			if c, ok := b.tab[fmt.Sprintf("<=|,%d,%d", x.args[1].id, x.args[0].id)]; ok && seen[c.id] {
+				return b.tt
+			}
 		}
 	}
 	switch len(out) {
@@ -406,6 +427,7 @@ func (b *Builder) Add(xs ...*Term) *Term {
 	if len(out) == 0 {
 		return b.Big(c)
 	}
+	sort.SliceStable(out, func(i, j int) bool { return out[i].id < out[j].id })
 	if c.Sign() != 0 {
 		out = append(out, b.Big(c))
 	}
